@@ -14,11 +14,11 @@ SLINE = StructSpec('struct.sline',
                    owns={'buf': 'cap'})
 
 
-def witness(name, repo, flags=(), lang=None):
+def witness(name, repo, flags=(), lang=None, **kw):
     src = os.path.join(WIT, name)
     if not os.path.exists(src):
         raise AnalysisBroken('witness unit %s missing' % src)
-    return compile_ir(src, repo, flags, lang=lang)
+    return compile_ir(src, repo, flags, lang=lang, **kw)
 
 
 def relpath(repo, f):
